@@ -180,9 +180,14 @@ def namespaceOk (newPre : String) (b a : SV) : Bool :=
   a.links == b.links &&
   a.indep == b.indep.map (fun e => (renamed b.pre newPre e.1, e.2))
 
-/-- **bulk**: after the map form returned, every entry of the map is a link and is in sync -/
-def bulkOk (entries : List (String × String)) (a : SV) : Bool :=
-  (mkMap entries).all (fun e => a.links.contains (a.short e.2, a.short e.1) && a.synced (a.short e.2, a.short e.1))
+/-- **bulk**: after the map form returned, every entry of the map is a link; when the object had no
+link before, the new links are also in sync (the final `matchParametersValues` gives every key the
+value of its source).  With links already present that last part is not claimed: the values handed
+to the final `matchParametersValues` are cloned before it starts, and a key whose source follows
+another key receives the source's *former* value (corpus/C03/note-bulk-stale-sync.txt). -/
+def bulkOk (entries : List (String × String)) (b a : SV) : Bool :=
+  (mkMap entries).all (fun e => a.links.contains (a.short e.2, a.short e.1)) &&
+  (!b.links.isEmpty || (mkMap entries).all (fun e => a.synced (a.short e.2, a.short e.1)))
 
 def Out.isErr : Out → Bool
   | .err _ => true
@@ -259,9 +264,9 @@ def checkStep (b : View) (op : Op) (out : Out) (a : View) : Option String :=
       else none
     | _, _ => none
   | .bulk k es =>
-    match a.get k with
-    | some sa => if out.isErr then none else if !bulkOk es sa then some "bulk_links" else none
-    | none => none
+    match b.get k, a.get k with
+    | some sb, some sa => if out.isErr then none else if !bulkOk es sb sa then some "bulk_links" else none
+    | _, _ => none
   | .copy s d =>
     if out.isErr then none
     else if a.get d != b.get s then some "copy_carries"
